@@ -1375,13 +1375,16 @@ class SimCluster:
         g = self._group_obj(req.consumer_group)
         if code:
             g._ev("fetch_offsets", None, code)
-            fields = {
-                "topics": [
-                    (t, [(p, -1, "", code) for p in parts]) for t, parts in (req.topics or [])
-                ]
-            }
             if rq.version >= 2:
-                fields["error_code"] = code
+                # a group-level error of OffsetFetch v2+ is reported in the top-level field ONLY, with no
+                # partition entries (Kafka: OffsetFetchRequest.getErrorResponse fills partitions for v0/v1 only)
+                fields = {"topics": [], "error_code": code}
+            else:
+                fields = {
+                    "topics": [
+                        (t, [(p, -1, "", code) for p in parts]) for t, parts in (req.topics or [])
+                    ]
+                }
             return self.reply(rq, **fields)
         g.handle_offset_fetch(rq)
 
